@@ -210,7 +210,7 @@ impl GenParams {
             max_ops: 40,
             limits: vec![100, 1000],
             counters: vec![10, 64, 1000],
-            shards: vec![2, 4, 8],
+            shards: vec![2, 2, 4, 8, 16],
             cmd_bufs: vec![1, 2, 8, 64],
             ticks_us: vec![500],
             hash_modes: vec![HashMode::Identity, HashMode::Identity, HashMode::Default, HashMode::Constant, HashMode::Mod2],
@@ -352,10 +352,10 @@ pub fn cfg_strategy(params: &GenParams) -> BoxedStrategy<Cfg> {
     (
         pick(&params.counters), pick(&params.limits), pick(&params.shards), pick(&params.cmd_bufs),
         (1usize..=3, 1usize..=8), pick(&params.ticks_us), pick(&params.hash_modes), weight_mode,
-        (0u64..8, prop_oneof![Just(0u64), Just(999_999_999u64), 0u64..1_000_000_000]),
-    ).prop_map(|(counters, max_weight, shards, cmd_buf, (pool, buf), tick_us, hash, weight_mode, (start_s, start_n))| Cfg {
+        (0u64..8, prop_oneof![Just(0u64), Just(999_999_999u64), 0u64..1_000_000_000], prop_oneof![4 => Just(16usize), 1 => Just(1usize), 1 => Just(1024usize)]),
+    ).prop_map(|(counters, max_weight, shards, cmd_buf, (pool, buf), tick_us, hash, weight_mode, (start_s, start_n, capacity))| Cfg {
         counters,
-        capacity: 16,
+        capacity,
         max_weight,
         shards,
         cmd_buf,
